@@ -1,4 +1,4 @@
-import QibGen.GatesReal
+import QibProofs.Lemmas.GateBridge
 import QibProofs.Lemmas.GateAlgebra
 import QibProofs.Lemmas.PauliFlags
 import Mathlib.Tactic.NormNum
@@ -12,7 +12,7 @@ pattern, arbitrary nesting" is covered by `C01_constructible_unitary` (induction
 Matrix sizes: the generated leaf matrices have type `Matrix (Fin d) (Fin d) ℂ` with `d = 2 ^ wires`
 (`C01_leaf_dims`); composites multiply the index type by the control index type.
 -/
-open Matrix NormedSpace Complex QibGen Qib.GateAlgebra
+open Matrix NormedSpace Complex QibGen QibRef Qib.GateAlgebra
 
 namespace Qib.C01
 
@@ -330,5 +330,51 @@ matrix is unitary -/
 theorem C01_WeightedPauliString_claim_iff (n : ℕ) (P : PS) (w : GQ) :
     wpsIsUnitary w = true ↔ (w.toC • P.mat n)ᴴ * (w.toC • P.mat n) = 1 :=
   (Qib.Pauli.wpsIsUnitary_iff w).trans (Qib.Pauli.wps_unitary_iff n P w.toC)
+
+/-! ### The same statements about the forms regenerated from the CURRENT source
+
+`QibSrc.K.mat` / `QibSrc.K.inv` are regenerated from `src/qib/operator/gates.py` on every run; `QibBridge` proves on every run that they are
+equal to the reference forms `QibRef.K.mat` / `QibRef.K.inv` used above (by a tactic that is independent of how the source spells the
+closed form), so every theorem above is a theorem about what the code says now. -/
+
+theorem C01_source_agrees : QibBridge.SrcAgrees := QibBridge.srcAgrees
+theorem C01_IdentityGate_unitary_src : QibSrc.IdentityGate.mat * (QibSrc.IdentityGate.mat)ᴴ = 1 := by
+  rw [QibBridge.IdentityGate_mat]; exact C01_IdentityGate_unitary
+theorem C01_PauliXGate_unitary_src : QibSrc.PauliXGate.mat * (QibSrc.PauliXGate.mat)ᴴ = 1 := by
+  rw [QibBridge.PauliXGate_mat]; exact C01_PauliXGate_unitary
+theorem C01_PauliYGate_unitary_src : QibSrc.PauliYGate.mat * (QibSrc.PauliYGate.mat)ᴴ = 1 := by
+  rw [QibBridge.PauliYGate_mat]; exact C01_PauliYGate_unitary
+theorem C01_PauliZGate_unitary_src : QibSrc.PauliZGate.mat * (QibSrc.PauliZGate.mat)ᴴ = 1 := by
+  rw [QibBridge.PauliZGate_mat]; exact C01_PauliZGate_unitary
+theorem C01_HadamardGate_unitary_src : QibSrc.HadamardGate.mat * (QibSrc.HadamardGate.mat)ᴴ = 1 := by
+  rw [QibBridge.HadamardGate_mat]; exact C01_HadamardGate_unitary
+theorem C01_SxGate_unitary_src : QibSrc.SxGate.mat * (QibSrc.SxGate.mat)ᴴ = 1 := by
+  rw [QibBridge.SxGate_mat]; exact C01_SxGate_unitary
+theorem C01_RxGate_unitary_src (θ : ℝ): QibSrc.RxGate.mat θ * (QibSrc.RxGate.mat θ)ᴴ = 1 := by
+  rw [QibBridge.RxGate_mat]; exact C01_RxGate_unitary θ
+theorem C01_RyGate_unitary_src (θ : ℝ): QibSrc.RyGate.mat θ * (QibSrc.RyGate.mat θ)ᴴ = 1 := by
+  rw [QibBridge.RyGate_mat]; exact C01_RyGate_unitary θ
+theorem C01_RzGate_unitary_src (θ : ℝ): QibSrc.RzGate.mat θ * (QibSrc.RzGate.mat θ)ᴴ = 1 := by
+  rw [QibBridge.RzGate_mat]; exact C01_RzGate_unitary θ
+theorem C01_RotationGate_unitary_src (v : Fin 3 → ℝ): QibSrc.RotationGate.mat v * (QibSrc.RotationGate.mat v)ᴴ = 1 := by
+  rw [QibBridge.RotationGate_mat]; exact C01_RotationGate_unitary v
+theorem C01_SGate_unitary_src : QibSrc.SGate.mat * (QibSrc.SGate.mat)ᴴ = 1 := by
+  rw [QibBridge.SGate_mat]; exact C01_SGate_unitary
+theorem C01_SAdjGate_unitary_src : QibSrc.SAdjGate.mat * (QibSrc.SAdjGate.mat)ᴴ = 1 := by
+  rw [QibBridge.SAdjGate_mat]; exact C01_SAdjGate_unitary
+theorem C01_TGate_unitary_src : QibSrc.TGate.mat * (QibSrc.TGate.mat)ᴴ = 1 := by
+  rw [QibBridge.TGate_mat]; exact C01_TGate_unitary
+theorem C01_TAdjGate_unitary_src : QibSrc.TAdjGate.mat * (QibSrc.TAdjGate.mat)ᴴ = 1 := by
+  rw [QibBridge.TAdjGate_mat]; exact C01_TAdjGate_unitary
+theorem C01_PhaseFactorGate_unitary_src (φ : ℝ) (n : ℕ): QibSrc.PhaseFactorGate.mat φ n * (QibSrc.PhaseFactorGate.mat φ n)ᴴ = 1 := by
+  rw [QibBridge.PhaseFactorGate_mat]; exact C01_PhaseFactorGate_unitary φ n
+theorem C01_RxxGate_unitary_src (θ : ℝ): QibSrc.RxxGate.mat θ * (QibSrc.RxxGate.mat θ)ᴴ = 1 := by
+  rw [QibBridge.RxxGate_mat]; exact C01_RxxGate_unitary θ
+theorem C01_RyyGate_unitary_src (θ : ℝ): QibSrc.RyyGate.mat θ * (QibSrc.RyyGate.mat θ)ᴴ = 1 := by
+  rw [QibBridge.RyyGate_mat]; exact C01_RyyGate_unitary θ
+theorem C01_RzzGate_unitary_src (θ : ℝ): QibSrc.RzzGate.mat θ * (QibSrc.RzzGate.mat θ)ᴴ = 1 := by
+  rw [QibBridge.RzzGate_mat]; exact C01_RzzGate_unitary θ
+theorem C01_ISwapGate_unitary_src : QibSrc.ISwapGate.mat * (QibSrc.ISwapGate.mat)ᴴ = 1 := by
+  rw [QibBridge.ISwapGate_mat]; exact C01_ISwapGate_unitary
 
 end Qib.C01
